@@ -3,6 +3,28 @@
 import glob, json, os
 V = os.path.dirname(os.path.dirname(os.path.abspath(__file__)))
 STRENGTHENED = {
+    "C02-m9": "round 6: missed at first; `t!` / `tu!` view flavours through a context added, also built before the context's locale is set and rendered after",
+    "C02-m10": "round 6: missed at first; plural keys only the default locale translates (one match arm for all locales) in every probe project",
+    "C06-m10": "round 6: only a broken correspondence at first; negative / decimal literal counts for plural targets (and the oracle's category table repaired, DESIGN \u00a710.7)",
+    "C08-m9": "round 6: missed at first; kind-conflict family (plural / range / other range type / text on one count variable in every order)",
+    "C08-m10": "round 6: only a non-compiling probe crate at first; nested and re-used components in every probe project, compile failures explained by delta debugging over the translation keys",
+    "C16-m9": "round 6: missed at first; wired sub-contexts brought under the check (harness ops, model, Theorems/C16Wired.lean, model-independent oracle)",
+    "C18-m10": "round 6: missed at first; second no-compiled-data build whose provider impl comes from #[derive(IcuDataProvider)]",
+    "C03-m9": "round 7: missed by C03 at first (caught by C06 / C01); C06's fallback-walk family and oracle now also run in C03",
+    "C03-m10": "round 7: same as C03-m9",
+    "C04-m10": "round 7: missed by C04 at first (caught by C06 / C08); renamed count through a chain of references added to C04's declarations",
+    "C05-m9": "round 7: missed at first; the plural projects also run through the `suppress_key_warnings` build",
+    "C05-m10": "round 7: missed at first; plural categories through both no-compiled-data builds (hand-written and derived provider)",
+    "C07-m9": "round 7: the check crashed at first (sorting tuples that hold None) \u2014 repaired; caught",
+    "C07-m10": "round 7: missed by C07 at first (caught by C03); values made only of references to empty strings, spurious ExplicitDefaultInDefault is a violation",
+    "C10-m9": "round 7: missed at first; degenerate declarations (typed range without branch, \u2026) through the three formats",
+    "C11-m9": "round 7: missed at first; helper-written files compared with the macro-side parser build's tables, padded key names",
+    "C12-m10": "round 7: missed by C12 at first (caught by C13); supported locales are read off their configured names",
+    "C13-m10": "round 7: missed at first; serde round trips through bincode and postcard",
+    "C15-m10": "round 7: missed at first; third ctx_h build without leptos_i18n's `cookie` feature",
+    "C17-m10": "round 7: missed at first; real renders with accesses below an <I18nSubContextProvider>",
+    "C19-m10": "round 7: missed at first; manifests mentioning the header text \u2014 which exposed the genuine defect C19-header-mention (fixed 9fed06a); the change was re-based on the repaired code",
+    "C20-m10": "round 7: only a broken correspondence at first (the group was named `grp`, a well-formed language tag); group names varied, valid-by-construction projects must be accepted",
     "C01-m1": "missed at first (no key with more than 26 parts): probe projects now always contain one long key with an odd and one with an even number of parts",
     "C01-m2": "caught by C09 (panic) and C01 after non-ASCII tag/variable names were added to the C01 source stream (impl vs spec only: XID identifiers are outside the Lean model)",
     "C03-m1": "needed the comparison of `compute()` (the match arms) with the grouping implied by the walk — added (before, only `default_of` was compared)",
